@@ -252,6 +252,28 @@ def flexibility(repo: Repo, chk: Check) -> None:
                    "a dimension counts as spatially unrolled only with coefficient 1 (adjacent lanes touch adjacent elements)",
                    "the spatial-unrolling test no longer requires coefficient 1 on a spatial column: lanes 2, 4, ... elements apart pass the bank-packing constraint",
                    s.fact_texts)
+        # the temporal test looks at EVERY temporal column (all columns in front of the template's), not a single one
+        cols = []
+        for fact in s.facts:
+            if fact.kind != "atom":
+                continue
+            for sub in ast.walk(fact.expr):
+                if isinstance(sub, ast.BinOp) and isinstance(sub.op, ast.Mod):
+                    for ss in ast.walk(sub.left):
+                        if isinstance(ss, ast.Subscript) and norm.match(T("$p.A"), ss.value) is not None and isinstance(ss.slice, ast.Tuple) and len(ss.slice.elts) == 2:
+                            cols.append(ss.slice.elts[1])
+        if not cols:
+            raise AnalysisError(f"{s.where()}: the columns the temporal-granularity test reads were not found")
+
+        def all_temporal(c: ast.expr) -> bool:
+            return isinstance(c, ast.Slice) and (c.lower is None or (isinstance(c.lower, ast.Constant) and c.lower.value == 0)) and c.upper is not None \
+                and norm.any_match(["-$t.num_dims"], c.upper) is not None and c.step is None
+
+        chk.result(all(all_temporal(c) for c in cols), "C16.flexibility", f"{f.key}:all-temporal-dims", s.where(),
+                   "the temporal-granularity test covers all temporal columns (`[:, :-template.num_dims]`)",
+                   f"the temporal-granularity test reads column(s) `{[ast.unparse(c) for c in cols][:2]}` only: the same result row has to stay bank-aligned across "
+                   "ALL temporal loops; checking one loop at a time lets schedules through in which different loops misalign different rows",
+                   s.fact_texts)
         chk.result(paired, "C16.flexibility", f"{f.key}:paired", s.where(),
                    "the temporal-granularity test and the spatial-unrolling test are combined element-wise (per operand dimension)",
                    "the temporal-granularity test and the spatial-unrolling test are reduced separately instead of being paired per "
